@@ -175,3 +175,33 @@ def check_hist(prop, sh, states, f0, o):
         sk = skipped_kept(sh, c0, r)
         if sk: f.append(f"after step {k}: follower's own " + sk[0]); break
     return f
+
+def check_setters(sh, x, ops, o):
+    """C15 on the implementation's observations: o maps E<k>/V<k>/REPLAY to canonical text"""
+    f = []
+    if any(v == 'PANIC' for v in o.values()): return [f"panic in {[t for t, v in o.items() if v == 'PANIC']}"]
+    cur = G.canon_val(sh, x)
+    raw = list(x[1])          # the field values as given (element order of Vec-typed unordered fields matters for ==)
+    for k, (fi, v) in enumerate(ops):
+        fd = sh.fields[fi]
+        e, after = o.get(f"E{k}"), o.get(f"V{k}")
+        if e is None or after is None: f.append(f"no observation for setter call {k}"); break
+        if e == 'NOSETTER': f.append(f"field f{fi} should have a generated setter"); break
+        if e.startswith('?'): f.append(f"unparsable entry {e[:100]}"); break
+        newv = G.canon_val(G.Sh('S', [fd]), ('t', [v]))[1][0]
+        want_entry = differs(fd, raw[fi], v)
+        if (e != '-') != want_entry:
+            f.append(f"setter call {k} on f{fi} ({fd.strat}): returned {'an entry' if e != '-' else 'nothing'} but the strategy sees {'a change' if want_entry else 'no change'} from {G.vtext(raw[fi])} to {G.vtext(v)}")
+        raw[fi] = v
+        if e != '-' and entry_field(e) != fi: f.append(f"setter call {k} on f{fi} returned an entry for field {entry_field(e)}")
+        av = G.parse_vtext(after)
+        for j in range(len(sh.fields)):
+            if j == fi:
+                if av[1][j] != newv: f.append(f"setter call {k}: field f{fi} holds {G.vtext(av[1][j])}, not the given value {G.vtext(newv)}")
+            elif av[1][j] != cur[1][j]: f.append(f"setter call {k} on f{fi} changed field f{j}")
+        cur = av
+    if 'REPLAY' in o and not f:
+        r = G.parse_vtext(o['REPLAY'])
+        if not Eqv(sh, r, cur): f.append(f"replaying the returned entries on a copy of the initial value gives {o['REPLAY']}, not equivalent to the final value {G.vtext(cur)}")
+        f += ['replay: ' + m for m in skipped_kept(sh, G.canon_val(sh, x), r)]
+    return f
